@@ -640,6 +640,20 @@ fn run_ops<'db>(db: &'db dyn Vd, ctx: &Ctx, f: &mut Frame<'db>, ops: &[Op]) {
         fault::tick(Site::Op);
         ctx.hook(YieldAt::Op);
         match op {
+            Op::Read { slot, field } if ctx.prog.maxplus => {
+                let v = read_slot(db, ctx, f, *slot, *field);
+                f.acc = f.acc.max(v % VMOD);
+            }
+            Op::Call { node, arg } if ctx.prog.maxplus => {
+                let out = do_call(db, ctx, f, *node, *arg);
+                f.acc = f.acc.max(out.v);
+            }
+            Op::CallMax { node, arg, add, guard } => {
+                if f.acc < MAXCAP && f.acc >= *guard {
+                    let out = do_call(db, ctx, f, *node, *arg);
+                    f.acc = f.acc.max((out.v + *add).min(MAXCAP));
+                }
+            }
             Op::Read { slot, field } => {
                 let v = read_slot(db, ctx, f, *slot, *field);
                 if lattice {
